@@ -4,9 +4,9 @@ from ..drivers import objects as drv
 ID = "C16"
 LEVEL = "exploration"
 TECHNIQUE = ("runtime monitoring: identity snapshots of tracks / iteration / len around every add and assignment; invariant (right kind, right frame count) evaluated after every call")
-RULE = ("random sequences (4-18 ops) on Data3D / ForceTorque3D / EMG blocks of 1..50 frames with 0..5 prior tracks: add valid, add wrong-length (shorter, longer, zero, double), add non-track (None, str, float, ndarray, dict, object), add a track of another block kind, assign lists / tuples / generators of 0..5 tracks valid or with one invalid element at every position, iterables derived from the block itself (its list, reversed, filtered, sliced, the block object, a lazy view), one caller list assigned to two blocks of different frame counts followed by valid additions to either; non-trivial = every sequence")
+RULE = ("random sequences (4-18 ops) on Data3D / ForceTorque3D / EMG blocks of 1..50 frames with 0..5 prior tracks: add valid, add wrong-length (shorter, longer, zero, double), add non-track (None, str, float, ndarray, dict, object), add a track of another block kind, assign lists / tuples / generators of 0..5 tracks valid or with one invalid element at every position, iterables derived from the block itself (its list, reversed, filtered, sliced, the block object, a lazy view), one caller list assigned to two blocks of different frame counts followed by valid additions to either; epilogue per case: another block of the same class (as block, its list, iter, tuple) with the same / another frame count assigned, lists of labels of current tracks assigned and added (refused, unchanged); non-trivial = every sequence")
 ASSUMPTIONS = ["refused = any exception"]
-REQUIRED = {t: "oracle:C16.invariant oracle:C16.bad-add-refused oracle:C16.assignment-all-or-nothing oracle:C16.assignment-from-own-list oracle:C16.sibling-invariant c16:data3D c16:force3D c16:emg".split() for t in ("quick", "thorough")}
+REQUIRED = {t: "oracle:C16.invariant oracle:C16.bad-add-refused oracle:C16.assignment-all-or-nothing oracle:C16.assignment-from-own-list oracle:C16.sibling-invariant oracle:C16.assignment-from-another-block oracle:C16.assignment-of-labels-refused c16:data3D c16:force3D c16:emg".split() for t in ("quick", "thorough")}
 
 
 def plan(tier, seed):
